@@ -28,6 +28,11 @@ inductive Atom
   | numeric (op : Op) (p : Path) (arg : Int)
   | propCmp (op : Op) (p q : Path)
   | datatype (p : Path) (dt : String)
+  /-- `pattern` restricted to four regular-expression shapes over literal text without metacharacters:
+  `^lit$` (equals), `^lit` (starts with), `lit$` (ends with), `lit` (contains) -/
+  | pattern (p : Path) (anchorStart anchorEnd : Bool) (lit : String)
+  /-- `uniqueValues: arg` — evaluated on the ARRAY of reached values (one entry per route) -/
+  | uniqueValues (p : Path) (arg : Bool)
 deriving Repr, Inhabited
 
 /-- Rego set of the reached values -/
@@ -86,6 +91,23 @@ def datatypeOk (dt : String) : Item → Bool
   | .lit (.bool _) => dt = xsd "boolean"
   | _ => false
 
+/-- `regex.match` for the four literal shapes; undefined (never fires, either polarity) on non-strings -/
+def patternOk (anchorStart anchorEnd : Bool) (lit : String) : Item → Option Bool
+  | .lit (.str s) =>
+    let cs := s.toList
+    let l := lit.toList
+    some (match anchorStart, anchorEnd with
+      | true, true => cs == l
+      | true, false => l.isPrefixOf cs
+      | false, true => l.isSuffixOf cs
+      | false, false => (List.range (cs.length + 1)).any (fun i => l.isPrefixOf (cs.drop i)))
+  | _ => none
+
+/-- does the list hold some element twice? -/
+def hasDup : List Item → Bool
+  | [] => false
+  | x :: xs => xs.contains x || hasDup xs
+
 /-- per-value atoms: the un-negated snippet fires when some value is not ok, the negated twin when
 some value is ok -/
 def anyVal (neg : Bool) (vs : List Item) (ok : Item → Bool) : Bool :=
@@ -111,6 +133,14 @@ def Atom.fails (g : Graph) (neg : Bool) : Atom → Node → Bool
       if neg then as.any (fun a => bs.any (fun b => ordOp op (a.cmp b)))
       else as.any (fun a => bs.any (fun b => !ordOp op (a.cmp b)))
   | .datatype p dt, n => anyVal neg (valueSet g p n) (datatypeOk dt)
+  | .pattern p a e lit, n =>
+      (valueSet g p n).any (fun v => match patternOk a e lit v with
+        | some ok => if neg then ok else !ok
+        | none => !neg)          -- regex.match on a non-string is undefined: `not …` holds, the bare call does not
+  | .uniqueValues p arg, n =>
+      -- GeneratePropertyArray: the array has one entry per route to a value
+      let dup := hasDup (pathValues g p false n)
+      if arg != neg then dup else !dup
 
 /-- the environment a graph and two tables (atoms, nested paths) induce -/
 def graphEnv (g : Graph) (atoms : Array Atom) (paths : Array Path) : Dnf.Env Node where
